@@ -90,7 +90,10 @@ def parse_template(text):
                 if buf:
                     out.append(('text', buf))
                     buf = []
-                if head == 'fn':
+                if head == 'letexpr':
+                    # //@@ letexpr <file> <fn> <var> params=a:&T;b:U ret=r:TYPE [tags=..]
+                    cur = Directive('letexpr', words[1], words[2] + ' ' + words[3], parse_opts([w for w in words[4:] if '=' in w]), i + 1)
+                elif head == 'fn':
                     cur = Directive('fn', words[1], ' '.join(w for w in words[2:] if '=' not in w and w not in ('trusted',)), parse_opts([w for w in words[2:] if '=' in w or w in ('trusted',)]), i + 1)
                 elif head in ('type', 'const', 'alias', 'static', 'trait'):
                     d = Directive(head, words[1], words[2], parse_opts(words[3:]), i + 1)
@@ -731,6 +734,51 @@ def build_type(gen, d):
     gen.emit('', None)
 
 
+def build_letexpr(gen, d):
+    """X6: the initialiser expression of `let <var> = EXPR;` (a direct child statement of <fn>'s body) wrapped verbatim as
+    `fn <fn>__<var>(<params>) -> (r: T) { EXPR }`; the parameters are the variables EXPR mentions, with the types they have in <fn>
+    (a wrong type or a missing variable is a compile error -> undecided)."""
+    src, masked = load(d.file)
+    fname, var = d.sel.split()
+    it = find_fn(src, masked, fname)
+    body_m = masked[it.body_open:it.body_close + 1]
+    dm = depth_map(body_m, 0, len(body_m))
+    cands = [m for m in re.finditer(r'\blet\s+(mut\s+)?%s\s*(:[^=;]*)?=' % re.escape(var), body_m) if dm[m.start()] == 1]
+    if len(cands) != 1:
+        raise LostAnchor('%s: `let %s =` found %d times in %s' % (d.file, var, len(cands), fname))
+    a = cands[0].end()
+    depth, j = 0, a
+    while j < len(body_m):
+        ch = body_m[j]
+        if ch in '([{':
+            depth += 1
+        elif ch in ')]}':
+            depth -= 1
+        elif ch == ';' and depth == 0:
+            break
+        j += 1
+    expr = src[it.body_open + a:it.body_open + j].strip()
+    rname, rty = d.opts['ret'][0].split(':', 1)
+    params = ', '.join(x.replace(':', ': ', 1) for v in d.opts.get('params', []) for x in v.split(';') if x)
+    name = '%s__%s' % (fname, var)
+    tags = ','.join(d.opts.get('tags', [])).split(',') if d.opts.get('tags') else []
+    item_id = len(gen.items)
+    gen.items.append({'id': item_id, 'kind': 'fn', 'name': name, 'file': d.file, 'tags': tags, 'trusted': False,
+                      'src_lines': [src.count('\n', 0, it.body_open + a) + 1, src.count('\n', 0, it.body_open + j) + 1],
+                      'mode': 'exec', 'clauses': 0})
+    gen.drops['X6_let_initialiser_wrapped'] = gen.drops.get('X6_let_initialiser_wrapped', 0) + 1
+    gen.emit('fn %s(%s) -> (%s: %s) // X6: initialiser of `let %s` in %s:%s' % (name, params, rname, rty.replace('~', ' '), var, d.file, fname), item_id)
+    for b in d.blocks:
+        if b.kind == 'contract':
+            gen.emit_contract(b.lines, item_id, 'contract')
+        else:
+            raise Unsupported('letexpr supports only a contract block')
+    gen.emit('{', item_id)
+    gen.emit('    ' + expr, item_id)
+    gen.emit('}', item_id)
+    gen.emit('', None)
+
+
 def build_trait(gen, d):
     """`//@@ trait <file> <Name>`: the trait item verbatim (attributes dropped, X2); provided method bodies included"""
     src, masked = load(d.file)
@@ -801,6 +849,8 @@ def generate(unit_dir):
                 build_type(gen, d)
             elif d.kind == 'trait':
                 build_trait(gen, d)
+            elif d.kind == 'letexpr':
+                build_letexpr(gen, d)
             else:
                 build_simple(gen, d)
     # line map
